@@ -94,6 +94,14 @@ impl<'a> Gen<'a> {
         self.next_tag
     }
 
+    /// Every loop variable of a script has its own name: the expected messages
+    /// must not depend on how shadowing between a callable's locals and its
+    /// caller's variables is resolved (that is scoping semantics, not C19).
+    fn fresh_var(&mut self, prefix: &str) -> String {
+        self.next_tag += 1;
+        format!("{}{}{}", prefix, self.salt, self.next_tag)
+    }
+
     fn block(&mut self, wh: Where, depth: usize, vars: &[String], nmix: usize, nfun: usize, nimp: &[usize], in_rule: bool) -> Vec<Node> {
         let n = self.rng.range(1, 4);
         let mut out = vec![];
@@ -108,7 +116,7 @@ impl<'a> Gen<'a> {
             } else if r < 42 {
                 Node::Warn { tag: self.tag(), vars: vars.to_vec() }
             } else if r < 52 && depth < 3 {
-                let var = format!("i{}{}", self.salt, depth);
+                let var = self.fresh_var("i");
                 let lo = self.rng.range(0, 2) as i64;
                 let hi = lo + self.rng.range(0, 3) as i64;
                 let mut v2 = vars.to_vec();
@@ -118,7 +126,7 @@ impl<'a> Gen<'a> {
                 let body = self.block(if wh == Where::Function { Where::Function } else { Where::Control }, depth + 1, &v2, nmix, nfun, &[], in_rule);
                 Node::For { var, lo, hi, inclusive: self.rng.chance(0.5), body }
             } else if r < 60 && depth < 3 {
-                let var = format!("i{}{}", self.salt, depth);
+                let var = self.fresh_var("i");
                 let k = self.rng.range(1, 3);
                 let items: Vec<i64> = (0..k).map(|j| 10 + j as i64 * 3).collect();
                 let mut v2 = vars.to_vec();
@@ -128,7 +136,7 @@ impl<'a> Gen<'a> {
                 let body = self.block(if wh == Where::Function { Where::Function } else { Where::Control }, depth + 1, &v2, nmix, nfun, &[], in_rule);
                 Node::Each { var, items, body }
             } else if r < 65 && depth < 3 {
-                let var = format!("w{}{}", self.salt, depth);
+                let var = self.fresh_var("w");
                 let mut v2 = vars.to_vec();
                 if v2.len() < 3 {
                     v2.push(var.clone());
